@@ -83,7 +83,8 @@ pub fn parse_datetime(s: &str) -> Result<(NaiveDateTime, NaiveDateTime), String>
             }
 
             match Local.with_ymd_and_hms(year, month, day, 0, 0, 0) {
-                LocalResult::Single(date) => {
+                // midnight may occur twice (a clock falling back from 01:00 to 00:00): the day exists all the same
+                LocalResult::Single(date) | LocalResult::Ambiguous(date, _) => {
                     let start = date
                         .naive_local()
                         .with_hour(hour_start)
@@ -104,11 +105,11 @@ pub fn parse_datetime(s: &str) -> Result<(NaiveDateTime, NaiveDateTime), String>
             }
         }
         None => {
-            // the English date parser slices its input by bytes and panics on multi-byte characters
             // a signed number is an offset in days, however many digits it has (`-1000`)
             let day_offset = (s.starts_with('+') || s.starts_with('-'))
                 && s.len() >= 2
                 && s[1..].chars().all(|c| c.is_ascii_digit());
+            // the English date parser slices its input by bytes and panics on multi-byte characters
             if s.len() >= 5 && s.is_ascii() && !day_offset {
                 match parse_english_date(s) {
                     Some(date_time) => {
